@@ -733,7 +733,8 @@ def _r7(ctx):
                 t = U(e)
                 m_ = re.fullmatch(r"len\((\w+)\) (>|>=|==|<|<=) (\d+)", t)
                 if m_ and ((m_.group(2) == ">" and m_.group(3) == "0" and not pol) or (m_.group(2) == "==" and m_.group(3) == "0" and pol)
-                           or (m_.group(2) == ">=" and m_.group(3) == "1" and not pol) or (m_.group(2) == "<" and m_.group(3) == "1" and pol)):
+                           or (m_.group(2) == ">=" and m_.group(3) == "1" and not pol) or (m_.group(2) == "<" and m_.group(3) == "1" and pol)
+                           or (m_.group(2) == "<=" and m_.group(3) == "0" and pol)):
                     lists.append(m_.group(1))
                 elif isinstance(e, ast.Name) and not pol:
                     lists.append(e.id)
